@@ -1541,7 +1541,7 @@ def source_token_rules(ctx, prefix):
                             pat, scrut, region = a_["pat"], m["e"], a_["body"]
                 if pat is None or not any(x is n for x in sir.walk(region)):
                     continue
-                if any(b in payload for b, _ in sir.pat_bindings(pat)):
+                if any(b in payload for b, _ in sir.pat_bindings(pat)) and "Token::" in sir.pat_str(pat):
                     s_ = sir.strip_ref(scrut)
                     while s_.get("k") == "unary" and s_.get("op") == "*":
                         s_ = sir.strip_ref(s_["e"])
